@@ -1,0 +1,90 @@
+//go:build verif
+
+package termrenderers
+
+// Contracts for govc (see /verif/DESIGN.md, C14). Comment-only file.
+// Thin safety contracts: every renderer completes without a run-time panic for any aggregated
+// state; line indices handed to the terminal are never negative; the header layout loop terminates.
+
+//@ nonnil rare/pkg/multiterm.MultilineTerm
+//@ nonnil rare/pkg/multiterm/termformat.Formatter
+
+//@ functype rare/pkg/multiterm/termformat.Formatter
+//@   params (this, val, min, max)
+//@   pure
+
+//@ func mini
+//@   pure
+//@   ensures result <= i && result <= j && (result == i || result == j)
+//@ func writeRepeat
+//@   requires sb != nil
+//@   modifies ghost sb_content(sb)
+//@ func underlineHeaderChar
+//@   pure
+//@   trusted
+//@ func maxi64
+//@   pure
+//@ func sumi64
+//@   pure
+
+// ---- histogram ----
+//@ pred wf_histo(s) := s.textSpacing >= 0
+//@ func (*HistoWriter).WriteForLine
+//@   requires wf_histo(s) && line >= 0
+//@   ensures wf_histo(s)
+//@ func (*HistoWriter).fullRender
+//@   requires wf_histo(s)
+//@   ensures wf_histo(s)
+//@   loop 1 invariant wf_histo(s)
+//@ func (*HistoWriter).writeLine
+//@   requires wf_histo(s) && line >= 0
+//@   modifies dyn(s.writer).*
+//@ func (*HistoWriter).writeLine$1
+//@   requires w != nil && *s != nil && (*s).maxVal > 0
+//@   modifies ghost sw_calls(w)
+//@ func (*HistoWriter).UpdateTotal
+//@   requires wf_histo(s)
+//@ func (*HistoWriter).WriteFooter
+//@   requires idx >= 0 && idx <= 1000000000
+
+// ---- heatmap ----
+//@ pred wf_heat(s) := s.maxRowKeyWidth >= 0 && s.colCount >= 0 && s.rowCount >= 0 && s.currentRows >= 0 && s.currentRows <= 1000000000
+//@ func (*Heatmap).WriteHeader
+//@   requires wf_heat(s)
+//@   ensures wf_heat(s) && 0 <= colCount && colCount <= len(colNames) && colCount <= s.colCount
+//@   loop 1 invariant wf_heat(s) && 0 <= i && 0 <= colCount && colCount <= len(colNames) && colCount <= s.colCount
+//@   loop 1 decreases colCount - i
+//@ func (*Heatmap).WriteRow
+//@   requires wf_heat(s) && idx >= 0 && idx <= 1000000000 && row != nil
+//@   ensures wf_heat(s) && s.minVal == old(s.minVal) && s.rowCount == old(s.rowCount) && s.colCount == old(s.colCount)
+//@   loop 1 invariant 0 <= i && wf_heat(s) && s.minVal == old(s.minVal) && s.rowCount == old(s.rowCount) && s.colCount == old(s.colCount)
+//@ func (*Heatmap).WriteFooter
+//@   requires wf_heat(s) && idx >= 0 && idx <= 1000000000
+//@ func (*Heatmap).UpdateMinMax
+//@   requires wf_heat(s)
+//@   ensures wf_heat(s) && s.minVal == min && s.rowCount == old(s.rowCount) && s.colCount == old(s.colCount)
+//@   loop 1 invariant 0 <= i && wf_heat(s) && s.minVal == min && s.maxVal == max && s.rowCount == old(s.rowCount) && s.colCount == old(s.colCount)
+//@   loop 2 invariant wf_heat(s) && s.minVal == min && s.maxVal == max && s.rowCount == old(s.rowCount) && s.colCount == old(s.colCount)
+
+// ---- sparkline ----
+//@ func (*Spark).WriteTable
+//@   requires agg != nil && s.table != nil && wf_tw(s.table) && s.colCount >= 0 && s.rowCount >= 0
+//@   loop 1 invariant 0 <= i && s.table != nil && wf_tw(s.table) && rowCount <= len(rows) && (forall k in [0, len(rows)) :: rows[k] != nil)
+//@   loop 2 invariant 0 <= i && 0 <= j && s.table != nil && wf_tw(s.table) && i < rowCount && rowCount <= len(rows) && (forall k in [0, len(rows)) :: rows[k] != nil) && row != nil
+
+// ---- table writer ----
+//@ pred wf_tw(t) := t.term != nil && 0 <= t.activeRows && t.activeRows <= t.maxRows && t.maxRows <= 1000000000 && len(t.rows) == t.maxRows && len(t.colWidth) == t.maxCols
+//@ func (*TableWriter).WriteRow
+//@   requires wf_tw(s) && rowNum >= 0
+//@   modifies s.activeRows, s.rows[..], s.colWidth[..], dyn(s.term).*
+//@   ensures wf_tw(s)
+//@   loop 1 invariant 0 <= i && wf_tw(s) && rowNum < s.maxRows
+//@   loop 2 invariant 0 <= i && wf_tw(s)
+//@ func (*TableWriter).writeRow
+//@   requires wf_tw(s) && rowNum >= 0
+//@   modifies dyn(s.term).*
+//@   loop 1 invariant 0 <= i
+//@   loop 2 invariant 0 <= i && 0 <= j && i < len(cols) && i < s.maxCols && len(s.colWidth) == s.maxCols
+//@ func (*TableWriter).WriteFooter
+//@   requires wf_tw(s) && idx >= 0 && idx <= 1000000000
+//@   modifies dyn(s.term).*
